@@ -1,13 +1,18 @@
 #!/bin/bash
-# try_seed.sh <seed-dir> [props...] : apply a seeded change to /repo, run the given checks (default: the
-# property named in meta.json), undo the change.  Prints one line per check.
+# try_seed.sh <seed-dir> [props...] : apply a seeded change to a private scratch COPY of /repo (never to /repo
+# itself: an interrupted in-place trial once left a mutant in /repo's working tree, see DESIGN.md section 11, F2),
+# run the given checks (default: the property named in meta.json) against the copy via VERIF_REPO, remove the copy.
+# Prints one line per check.
 set -u
-D=$1; shift
+D=$(readlink -f "$1"); shift
 P=${@:-$(python3 -c "import json;print(json.load(open('$D/meta.json'))['property'])")}
-cd /repo && git apply "$D/patch.diff" || { echo "APPLY-FAILED $D"; exit 3; }
-cd /verif
+HERE=$(dirname "$(dirname "$(readlink -f "$0")")")
+W=$(mktemp -d /tmp/hpke_seed_XXXXXX)
+trap 'rm -rf "$W"' EXIT INT TERM
+rsync -a --exclude target --exclude .git /repo/ "$W/"
+( cd "$W" && git apply "$D/patch.diff" ) || { echo "APPLY-FAILED $D"; exit 3; }
+cd "$HERE"
 for p in $P; do
-  out=$(python3 tools/check.py $p --tier ${TIER:-quick} 2>&1); rc=$?
+  out=$(VERIF_REPO=$W python3 tools/check.py $p --tier ${TIER:-quick} 2>&1); rc=$?
   echo "$(basename $D) $p rc=$rc $(echo "$out" | grep -E '^(VIOLATION|UNDECIDED|OK|KNOWN)' | head -3 | cut -c1-300 | tr '\n' '|')"
 done
-git -C /repo checkout -- . ; git -C /repo clean -fdq
